@@ -82,7 +82,7 @@ def h_sound(ctx: Any, n: int, m: int, prof: str, twin: bool = False) -> None:
     _check_sound(ctx, pat, instance, seed_copy, res, 'match_single')
 
 
-def h_complete(ctx: Any, n: int, m: int, prof: str, twin: bool = False) -> None:
+def h_complete(ctx: Any, n: int, m: int, prof: str, history: bool = False, twin: bool = False) -> None:
     from proof_generation import pattern as P
 
     pr = _prof(prof)
@@ -94,6 +94,15 @@ def h_complete(ctx: Any, n: int, m: int, prof: str, twin: bool = False) -> None:
     which = ctx.choose(2, 'form')
     if which == 1:
         instance = pat.instantiate(sigma)
+    if history:
+        # matching must not depend on earlier matches: the sibling problems (other constructors, rotated notation keys;
+        # same ids) and two mismatching problems are solved first and their answers thrown away
+        for a, b in ((gens.kind_swap(pat), gens.kind_swap(instance)), (gens.key_swap(pat), gens.key_swap(instance)), (pat, gens.kind_swap(instance)), (gens.kind_swap(pat), instance)):
+            for f in (lambda: P.match_single(a, b), lambda: P.match([(a, b)])):
+                try:
+                    f()
+                except Exception:
+                    ctx.count('warmup_raised')
     res = P.match_single(pat, instance)
     ctx.count('reached')
     ctx.sample({'pattern': repr(pat), 'sigma': repr(sigma)})
@@ -246,6 +255,8 @@ def levels(tier: str) -> list[dict]:
         L.append(dict(label=f'complete/notation/n={n},val<=2', module=M, fn='h_complete', kwargs=dict(n=n, m=2, prof='schem_nt'), budget_s=bud, required=n <= 3))
     for n in ([3, 4] if q else [3, 4, 5]):
         L.append(dict(label=f'complete/partial-instantiate/n={n},val<=1', module=M, fn='h_complete', kwargs=dict(n=n, m=1, prof='schem_raw'), budget_s=bud, required=n <= 4, twin=False))
+    for pn, n in ([('schem', 2), ('schem_nt', 2), ('schem_nt', 3), ('schem_raw', 3)] if q else [('schem', 2), ('schem', 3), ('schem_nt', 2), ('schem_nt', 3), ('schem_raw', 3), ('schem_raw', 4)]):
+        L.append(dict(label=f'complete-after-sibling-problems/{pn}/n={n},val<=1', module=M, fn='h_complete', kwargs=dict(n=n, m=1, prof=pn, history=True), budget_s=bud, required=True, twin=False))
     L.append(dict(label='equations/2 eqs,n<=2,val<=1', module=M, fn='h_eqs', kwargs=dict(n=2 if q else 3, m=1), budget_s=bud, required=True))
     for i in range(n_notations()):
         ar = _notations()[i].arity
